@@ -261,13 +261,32 @@ where
             if let Some(pos) = self.incomplete_pos.take() {
                 // resume incomplete search after previous read_record_set(), or
                 // after a seek() call.
-                if !try_opt!(self.resume_incomplete_search(pos, is_new)) {
-                    return None;
+                match self.resume_incomplete_search(pos, is_new) {
+                    Ok(true) => {}
+                    Ok(false) => {
+                        // end of input: records found earlier in this call are still delivered
+                        if rset.buf_positions.is_empty() {
+                            return None;
+                        }
+                        break;
+                    }
+                    Err(e) => {
+                        // the set must not refer to a buffer that was not copied
+                        rset.buf_positions.clear();
+                        return Some(Err(e));
+                    }
                 }
             } else {
                 // search the next complete record after `next()`, or in
                 // later iterations of this loop
-                if !try_opt!(self.search()) {
+                let found = match self.search() {
+                    Ok(found) => found,
+                    Err(e) => {
+                        rset.buf_positions.clear();
+                        return Some(Err(e));
+                    }
+                };
+                if !found {
                     // At least one record must be present. If not, continue
                     // with `resume_incomplete_search()` in next iteration
                     if rset.buf_positions.is_empty() {
